@@ -15,6 +15,6 @@ let () =
     | ["EVAL"] ->
       let ss = List.rev !shells in
       Printf.printf "Z %s\nNEFF %s\n" (str_q (ztot ss)) (str_q (neffQ ss));
-      List.iter (fun s -> Printf.printf "V %s\n" (str_q (volQ s))) ss; print_endline "END"; shells := []
+      List.iter (fun s -> Printf.printf "V %s\nZS %s\nNE %s\n" (str_q (volQ s)) (str_q (zQ s)) (str_q (neffShQ s))) ss; print_endline "END"; shells := []
     | _ -> ()
   done with End_of_file -> ())
